@@ -19,6 +19,50 @@ uint64_t v_nondet_u64() { return next(); }
 bool v_nondet_bool() { return next() & 1; }
 uint32_t v_param(uint32_t k) { char n[32]; snprintf(n, sizeof n, "V_PARAM%u", k); const char *e = getenv(n); return e ? (uint32_t)strtoul(e, 0, 10) : 0; }
 double v_sqrt_uf(double x) { return __builtin_sqrt(x); }
+// C20 native confirmation: byte snapshot of the registered object and of every heap block allocated before the epoch;
+// at the end of the epoch any changed byte (or a block freed meanwhile) is a write to shared state by a read-only operation.
+void v_register_shared(const void *p, unsigned long n);
+void v_epoch_mark();
+void v_epoch_end();
+}
+#include <new>
+namespace {
+struct Blk { void *p; size_t n; bool freed; };
+Blk g_blk[100000]; size_t g_nblk = 0; bool g_epoch = false; size_t g_epoch_n = 0;
+const void *g_sh[8]; size_t g_shn[8]; size_t g_nsh = 0;
+unsigned char *g_copy = nullptr;
+}
+void *operator new(size_t n) { void *p = malloc(n ? n : 1); if (!p) abort(); if (!g_epoch && g_nblk < 100000) g_blk[g_nblk++] = Blk{p, n, false}; return p; }
+void *operator new[](size_t n) { return operator new(n); }
+static void v_del(void *p) {
+  if (!p) return;
+  for (size_t i = 0; i < g_nblk; ++i) if (g_blk[i].p == p && !g_blk[i].freed) { if (g_epoch && i < g_epoch_n) { printf("ASSERT-FAIL: C20 read-only operation frees shared memory\n"); g_fail = 1; } g_blk[i].freed = true; break; }
+  free(p);
+}
+void operator delete(void *p) noexcept { v_del(p); }
+void operator delete[](void *p) noexcept { v_del(p); }
+void operator delete(void *p, size_t) noexcept { v_del(p); }
+void operator delete[](void *p, size_t) noexcept { v_del(p); }
+extern "C" {
+void v_register_shared(const void *p, unsigned long n) { if (g_nsh < 8) { g_sh[g_nsh] = p; g_shn[g_nsh++] = n; } }
+void v_epoch_mark() {
+  g_epoch_n = g_nblk; size_t tot = 0;
+  for (size_t i = 0; i < g_nsh; ++i) tot += g_shn[i];
+  for (size_t i = 0; i < g_epoch_n; ++i) if (!g_blk[i].freed) tot += g_blk[i].n;
+  g_copy = (unsigned char *)malloc(tot ? tot : 1); size_t o = 0;
+  for (size_t i = 0; i < g_nsh; ++i) { memcpy(g_copy + o, g_sh[i], g_shn[i]); o += g_shn[i]; }
+  for (size_t i = 0; i < g_epoch_n; ++i) if (!g_blk[i].freed) { memcpy(g_copy + o, g_blk[i].p, g_blk[i].n); o += g_blk[i].n; }
+  g_epoch = true;
+}
+void v_epoch_end() {
+  g_epoch = false; size_t o = 0; bool changed = false;
+  for (size_t i = 0; i < g_nsh; ++i) { if (memcmp(g_copy + o, g_sh[i], g_shn[i])) changed = true; o += g_shn[i]; }
+  for (size_t i = 0; i < g_epoch_n; ++i) { if (g_blk[i].freed) continue; if (memcmp(g_copy + o, g_blk[i].p, g_blk[i].n)) changed = true; o += g_blk[i].n; }
+  if (changed) { printf("ASSERT-FAIL: C20 read-only operation writes shared mesh state\n"); g_fail = 1; }
+}
+}
+extern "C" {
+int v_unused_c20_anchor;
 }
 int main() {
   const char *vs = getenv("V_VALUES");
